@@ -476,6 +476,11 @@ PROPERTIES["C10"] = {
            "thorough": "histories of 5 operations"},
           params={"quick": {"ops": 4}, "thorough": {"ops": 5}}, budget={"quick": 300, "thorough": 1200},
           required_covers=["c10.req-history.request-reply-cycle"]),
+        M("c10_rep_call_histories", "d_c10", "rep_history",
+          {"quick": "RepSocket::{recv, send} (coroutine MIR) on a hand-assembled socket with two connections, the real AddressedIngressEngine, RCVTIMEO = 0, endpoints map with one scripted connection per peer: all histories of 4 operations from {a request from A / from B arrives (one routing-prefix frame, delimiter, payload), recv, send}",
+           "thorough": "histories of 5 operations"},
+          params={"quick": {"ops": 4}, "thorough": {"ops": 5}}, budget={"quick": 300, "thorough": 1200},
+          required_covers=["c10.rep-history.request-reply-cycle"]),
     ],
     "cfabmc": [
         dict(name="c10_req_concurrent_send", module="verifkit.cfabmc.req_check",
@@ -491,9 +496,9 @@ PROPERTIES["C10"] = {
     "manifest": {
         "engine": "mirsym+cfabmc",
         "technique": "interleaving BMC (z3, symbolic scheduler) over the CFAs of ReqSocket::send and RepSocket::recv extracted by executing their MIR, with the state mutex, state reads/writes and the awaited peer send as visible operations; plus execution of ReqSocket::pipe_detached's MIR over all bounded state x event combinations",
-        "text": "Two kernels of the property. (1) Racing senders: for 2 (thorough: 3) tasks calling send() concurrently on one REQ socket in state ReadyToSend, under every interleaving of their lock/unlock, state read/write and awaited peer-send steps and every outcome of the peer send: at most one call returns Ok; when all calls have returned the state is ExpectingReply exactly if one succeeded and ReadyToSend otherwise (a refused or failed send never leaves the socket unusable); the state mutex is released. (2) A peer-detach event changes the request state only when the detached peer holds the outstanding request (then the socket returns to ReadyToSend). (4) Single-caller histories on REQ through the real send()/recv(): successful operations alternate send, recv, send ...; a call in the wrong state is refused with InvalidState and changes nothing; a recv that fails for lack of a reply (would-block / timeout) leaves the socket expecting that reply; recv returns the oldest queued reply. (3) Racing receivers on REP: for 2 (thorough: 3) tasks calling recv() concurrently in state ReadyToReceive, under every interleaving and every outcome of the awaited request, at most one call returns Ok (no request's PeerInfo is overwritten by a second one), mutexes released.",
+        "text": "Two kernels of the property. (1) Racing senders: for 2 (thorough: 3) tasks calling send() concurrently on one REQ socket in state ReadyToSend, under every interleaving of their lock/unlock, state read/write and awaited peer-send steps and every outcome of the peer send: at most one call returns Ok; when all calls have returned the state is ExpectingReply exactly if one succeeded and ReadyToSend otherwise (a refused or failed send never leaves the socket unusable); the state mutex is released. (2) A peer-detach event changes the request state only when the detached peer holds the outstanding request (then the socket returns to ReadyToSend). (4) Single-caller histories on REQ through the real send()/recv(): successful operations alternate send, recv, send ...; a call in the wrong state is refused with InvalidState and changes nothing; a recv that fails for lack of a reply (would-block / timeout) leaves the socket expecting that reply; recv returns the oldest queued reply. (5) Single-caller histories on REP: successful operations alternate recv, send, ...; refused calls change nothing; every reply goes to the connection whose request was received last, with that request's routing prefix and an empty delimiter in front. (3) Racing receivers on REP: for 2 (thorough: 3) tasks calling recv() concurrently in state ReadyToReceive, under every interleaving and every outcome of the awaited request, at most one call returns Ok (no request's PeerInfo is overwritten by a second one), mutexes released.",
         "design_ref": "DESIGN.md §5 (C10)",
-        "note": "NOT claimed: recv() racing with send()/recv() from several tasks, REP call histories and reply routing, cancellation of the send future at its await (the guard's drop on the cancellation edge is not in the MIR dump).",
+        "note": "NOT claimed: recv() racing with send()/recv() from several tasks, multipart replies, cancellation of the send future at its await (the guard's drop on the cancellation edge is not in the MIR dump).",
     },
     "outside": "recv races, longer histories, REP socket, reply routing, cancellation",
 }
